@@ -7,6 +7,7 @@ package main
 import (
 	"fmt"
 	"go/token"
+	"go/types"
 	"strings"
 
 	"golang.org/x/tools/go/ssa"
@@ -71,7 +72,7 @@ func traversalClosures(p *Prog) []*ssa.Function {
 			if goT[f] {
 				tasks = append(tasks, f)
 			}
-		} else if goT[f] && c02ReachesStatic(f, 2, func(in ssa.Instruction) bool { return c02IsCallTo(in, nGo) }) {
+		} else if goT[f] && (c02ReachesStatic(f, 2, func(in ssa.Instruction) bool { return c02IsCallTo(in, nGo) }) || c02ClosureBody(f) != nil) {
 			tasks = append(tasks, f)
 		}
 	}
@@ -175,6 +176,9 @@ func c02R1R4(c *Ctx) {
 					bodyCalls = append(bodyCalls, call)
 				}
 			}
+			if wb := c02ClosureBody(T0); wb != nil && wb.Body == T {
+				bodyCalls = append(bodyCalls, wb.Call) // the wrapper that runs the closure and returns nil only if it did
+			}
 			bad := false
 			for _, p := range c02Pushes(T0, nil) {
 				if g, _ := c02CalleeOf(p); g == nil || c02DispatchBody(g, 1) != T {
@@ -226,6 +230,9 @@ func c02R1R4(c *Ctx) {
 				okSum := len(sites) > 0
 				if ErrResultIndex(T.Signature) >= 0 {
 					for _, a := range c02NilableAtoms(T) {
+						if okErrs[a.Val] || okErrs[strip(a.Val)] {
+							continue // the wait's own error is returned
+						}
 						if !AtomMustPass(a, cutR1) {
 							if must, _ := c02MustPassPS(T, a.Ret, cutR1, okErrs); !must {
 								okSum = false
@@ -274,6 +281,23 @@ func c02R1R4(c *Ctx) {
 		if len(outerPushes) > 0 {
 			ct := newCut()
 			okErrs := map[ssa.Value]bool{}
+			// `if len(successors) != 0 { run(body) }` in the traversal function itself:
+			// the slice as the traversal function sees it (the variable the body closure captured)
+			if wb := c02ClosureBody(T0); wb != nil && wb.Body == T {
+				for _, a := range wb.Call.Common().Args {
+					mc, isMC := a.(*ssa.MakeClosure)
+					if !isMC || mc.Fn != T {
+						continue
+					}
+					for _, bnd := range mc.Bindings {
+						if al, isAlloc := bnd.(*ssa.Alloc); isAlloc && c02IsSliceType(al.Type().(*types.Pointer).Elem()) {
+							for _, st := range storesTo(al) {
+								ct.Edges(lenZeroEdges(T0, st.Val)...)
+							}
+						}
+					}
+				}
+			}
 			for _, bc := range bodyCalls {
 				if e := ErrOf(bc); e != nil {
 					ne, _, _ := NilTests(T0, c02MustAliases(e))
@@ -600,6 +624,12 @@ func c02R2(c *Ctx) {
 				if !deferred {
 					// shape B: explicit close on the success path of the owning function
 					if closeDeferred {
+						if ok, decided := c02DeferredHelperCloseOK(f, cl); decided {
+							c.Check(R2, key, cl.Pos(), ok,
+								ifelse(ok, "the deferred helper receives the address of the function's error result and closes the channel only where *result == nil",
+									"the deferred helper can close the tracker's done channel although the function's error result is non-nil"))
+							continue
+						}
 						c.Violation(R2, key, cl.Pos(), "the tracker's done channel is closed by an unconditional defer: it is closed although the node's copy failed (a waiting parent would then push with a missing successor)")
 						continue
 					}
